@@ -823,3 +823,46 @@ def staging_append(ctx):
 
 def derives_from_param_(fn, prov, e):
     return any(derives_from_param(fn, prov, e, i) for i in range(1, fn.arg_count + 1) if fn.local_ty(i).replace(' ', '') == '&[u8]')
+
+
+@rule('FORMAT-OVERRIDES', ['C19', 'C02'], floor=4)
+def format_overrides(ctx):
+    """A container whose header cannot carry an LZMA parameter fixes that parameter itself: the LZIP writer
+    (format constants lc=3, lp=0, pb=2, no preset dictionary) overwrites the corresponding option fields in
+    its constructor with constants before any encoder is created, whatever the caller put there."""
+    F = ctx.facts
+    ctors = [f for f in methods_of(F, 'LZIPWriter') if f.name == 'new']
+    if not ctors:
+        return ctx.anchor_missing('LZIPWriter::new')
+    f = ctors[0]
+    prov = Prov(f)
+    stored = {}
+    for bi, b in enumerate(f.blocks):
+        if b['cleanup']:
+            continue
+        for si, s in enumerate(b['stmts']):
+            if s['k'] != 'assign' or not s['lhs']['p']:
+                continue
+            names = [pe.get('n') for pe in s['lhs']['p'] if isinstance(pe, dict) and 'f' in pe]
+            owners = [last_seg(pe.get('o')) for pe in s['lhs']['p'] if isinstance(pe, dict) and 'f' in pe]
+            if 'LZMAOptions' in owners and names:
+                e = prov.rvalue(s['rv'], 0, '%d:%d' % (bi, si))
+                stored[names[-1]] = (bi, si, e)
+    # fields the LZMA options have that a decoder must know and the .lz header does not carry
+    need = {'lc': 3, 'lp': 0, 'pb': 2, 'preset_dict': None}
+    for name, val in need.items():
+        key = 'LZIPWriter::new:overrides-%s' % name
+        if name not in stored:
+            ctx.violation(key, f.loc(0), 'the .lz header has no field for `%s` and the readers assume %s, but LZIPWriter::new leaves the '
+                          'caller\'s value in the options handed to the encoder: the member cannot be decoded' % (
+                              name, 'no preset dictionary' if val is None else str(val)))
+            continue
+        bi, si, e = stored[name]
+        if val is None:
+            ok = e[0] == 'agg' and str(e[1]).endswith('::None')
+        else:
+            ok = e[0] == 'const' and e[2] == val
+        if ok:
+            ctx.ok(key, f.loc(bi, si), '%s := %s' % (name, 'None' if val is None else val))
+        else:
+            ctx.violation(key, f.loc(bi, si), '`%s` is set to %s instead of the format constant %s' % (name, expr_str(e)[:40], val))
